@@ -3,7 +3,7 @@ import ast
 
 from ..report import Inconclusive
 from ..py.eff import nonfresh
-from ..py.index import u, walk_shallow
+from ..py.index import u, walk_shallow, pos
 from . import common
 from .c19 import get_ord
 
@@ -19,6 +19,8 @@ def run(rep, tier):
     c16_ord(rep, ix, f)
     from .c19 import pairing
     common.guarded(rep, "C08.2", pairing, rep, get_ord(rep), ix, "C08.2")     # the register wires are read from .regrefs: it must list every register of the expression
+    from . import c08
+    common.guarded(rep, "C08.4", c08.c08_4, rep, ix)       # a register wire exists only if the argument that reads the register was wrapped into a transform
     c16_4(rep, ix, f)
     shape = common.guarded(rep, "C16.1", recognise, rep, ix, f)
     if shape is not None:
@@ -39,53 +41,177 @@ def recognise(rep, ix, f):
     return dict(loop=lp, idx=idx, op=op, prog=prog)
 
 
+FULL = frozenset(["modes", "args.regrefs", "kwargs.regrefs"])
+
+
+class DepEval:
+    """which wires a set-valued expression of the operation loop denotes: a subset of {modes, registers of transforms among the positional
+    arguments, registers of transforms among the keyword values}; anything else in the expression is reported as 'other'"""
+
+    def __init__(self, lp, op):
+        self.lp, self.op = lp, op
+        self.busy = set()
+
+    def denotes(self, e):
+        """args / kwargs-values coverage of an iterable expression"""
+        t = " ".join(u(e).split())
+        op = self.op
+        if t in ("%s['args']" % op, "%s.get('args', [])" % op, "%s.get('args', ())" % op):
+            return {"args"}
+        if isinstance(e, ast.Call) and isinstance(e.func, ast.Attribute) and e.func.attr in ("values", "items") and not e.args:
+            base = " ".join(u(self.resolve(e.func.value)).split())
+            if base in ("%s['kwargs']" % op, "%s.get('kwargs', {})" % op):
+                return {"kwargs"}
+            return {"other"}
+        if isinstance(e, ast.Name):
+            r = self.resolve(e)
+            return self.denotes(r) if r is not e else {"other"}
+        if isinstance(e, ast.Call) and u(e.func) in ("list", "tuple", "iter") and len(e.args) == 1:
+            return self.denotes(e.args[0])
+        if isinstance(e, ast.Call) and u(e.func) in ("chain", "itertools.chain"):
+            return set().union(*[self.denotes(a) for a in e.args]) if e.args else set()
+        if isinstance(e, ast.BinOp) and isinstance(e.op, ast.Add):
+            return self.denotes(e.left) | self.denotes(e.right)
+        if isinstance(e, (ast.List, ast.Tuple)) and all(isinstance(x, ast.Starred) for x in e.elts):
+            return set().union(*[self.denotes(x.value) for x in e.elts]) if e.elts else set()
+        return {"other"}
+
+    def resolve(self, e):
+        if isinstance(e, ast.Name):
+            defs = [n for n in walk_shallow(self.lp) if isinstance(n, ast.Assign) and len(n.targets) == 1 and isinstance(n.targets[0], ast.Name) and n.targets[0].id == e.id]
+            if len(defs) == 1:
+                return defs[0].value
+        return e
+
+    def guarded_value_var(self, test, names):
+        t = " ".join(u(test).split())
+        for v in names:
+            if t == "isinstance(%s, RegRefTransform)" % v:
+                return v
+        return None
+
+    def regs_of_loop(self, w):
+        """w adds <x>.regrefs: x must be the element variable of a loop over args / kwargs values, under isinstance(x, RegRefTransform)"""
+        out = set()
+        for l in walk_shallow(self.lp):
+            if isinstance(l, ast.For) and any(x is w for x in ast.walk(l)):
+                tv = [x.id for x in ast.walk(l.target) if isinstance(x, ast.Name)]
+                for g in ast.walk(l):
+                    if isinstance(g, ast.If) and any(x is w for x in ast.walk(g)):
+                        v = self.guarded_value_var(g.test, tv)
+                        if v and ("%s.regrefs" % v) in u(w):
+                            out |= {"%s.regrefs" % c for c in self.denotes(l.iter)}
+        return out or {"other"}
+
+    def ev(self, e):
+        """-> set of atoms"""
+        op = self.op
+        t = " ".join(u(e).split())
+        if isinstance(e, ast.Call) and u(e.func) in ("set", "frozenset") and len(e.args) == 1 and " ".join(u(e.args[0]).split()) in ("%s['modes']" % op, '%s["modes"]' % op):
+            return {"modes"}
+        if isinstance(e, ast.Call) and u(e.func) in ("set", "frozenset") and not e.args:
+            return set()
+        if isinstance(e, ast.BinOp) and isinstance(e.op, ast.BitOr):
+            return self.ev(e.left) | self.ev(e.right)
+        if isinstance(e, ast.Call) and isinstance(e.func, ast.Attribute) and e.func.attr == "union":
+            return self.ev(e.func.value).union(*[self.ev(a) for a in e.args])
+        if isinstance(e, ast.Call) and u(e.func) in ("set", "frozenset", "sorted", "list", "tuple") and len(e.args) == 1:
+            return self.ev(e.args[0])
+        if isinstance(e, (ast.SetComp, ast.GeneratorExp, ast.ListComp)):
+            # {r for v in ITER if isinstance(v, RegRefTransform) for r in v.regrefs}
+            gens = e.generators
+            if len(gens) == 2 and isinstance(gens[0].target, ast.Name) and isinstance(gens[1].target, ast.Name) and u(e.elt) == gens[1].target.id \
+                    and " ".join(u(gens[1].iter).split()) == "%s.regrefs" % gens[0].target.id and not gens[1].ifs \
+                    and [" ".join(u(c).split()) for c in gens[0].ifs] == ["isinstance(%s, RegRefTransform)" % gens[0].target.id]:
+                return {"%s.regrefs" % c for c in self.denotes(gens[0].iter)}
+            return {"other"}
+        if isinstance(e, ast.Name):
+            if e.id in self.busy:
+                return set()
+            self.busy.add(e.id)
+            try:
+                out = set()
+                found = False
+                for n in walk_shallow(self.lp):
+                    if isinstance(n, ast.Assign) and any(isinstance(t_, ast.Name) and t_.id == e.id for t_ in n.targets):
+                        out |= self.ev(n.value)
+                        found = True
+                    elif isinstance(n, ast.AugAssign) and isinstance(n.target, ast.Name) and n.target.id == e.id:
+                        found = True
+                        if not isinstance(n.op, ast.BitOr):
+                            out.add("other")
+                        elif ".regrefs" in u(n.value):
+                            out |= self.regs_of_loop(n)
+                        else:
+                            out |= self.ev(n.value)
+                    elif isinstance(n, ast.Call) and isinstance(n.func, ast.Attribute) and u(n.func.value) == e.id and n.func.attr in ("update", "add", "extend", "append", "discard", "remove", "clear", "pop",
+                                                                                                                                    "difference_update", "intersection_update"):
+                        found = True
+                        if n.func.attr == "update" and n.args and ".regrefs" in u(n.args[0]):
+                            out |= self.regs_of_loop(n)
+                        elif n.func.attr == "update" and n.args:
+                            out |= set().union(*[self.ev(a) for a in n.args])
+                        else:
+                            out.add("other")
+                return out if found else {"other"}
+            finally:
+                self.busy.discard(e.id)
+        return {"other"}
+
+
+def show_deps(d):
+    return "{%s}" % ", ".join(sorted(d))
+
+
 def c16_1(rep, ix, f, sh):
     R = "C16.1"
-    rep.rule(R, "the dependency set of an operation is its modes plus the registers of every RegRefTransform in positional and keyword arguments, collected in a set (each wire once)", floor=4)
-    lp, op = sh["loop"], sh["op"]
-    # the wire loop: for q in D: ... grid[q].append(...)
+    rep.rule(R, "the dependency set of an operation is its modes plus the registers of every RegRefTransform in positional and keyword arguments, collected in a set (each wire once); "
+                "every place that orders operations by wire uses exactly that set", floor=2)
+    lp, op, idx = sh["loop"], sh["op"], sh["idx"]
+    D = DepEval(lp, op)
+    # grid idiom: for q in D: grid[q].append([idx, cmd])      frontier idiom: for q in D: add_edge(frontier[q], idx) ... for q in D': frontier[q] = idx
     wl = [n for n in lp.body if isinstance(n, ast.For) and any(isinstance(x, ast.Call) and isinstance(x.func, ast.Attribute) and x.func.attr == "append" for x in ast.walk(n))]
-    if len(wl) != 1 or not isinstance(wl[0].iter, ast.Name):
-        raise Inconclusive("to_DiGraph: wire loop `for q in dependencies` not recognised")
-    D = wl[0].iter.id
-    sh["wire_loop"], sh["deps"] = wl[0], D
-    inits = [n for n in walk_shallow(lp) if isinstance(n, ast.Assign) and any(isinstance(t, ast.Name) and t.id == D for t in n.targets)]
-    ok_init = len(inits) == 1 and isinstance(inits[0].value, ast.Call) and u(inits[0].value.func) in ("set", "frozenset") and u(inits[0].value.args[0]) in ("%s['modes']" % op, '%s["modes"]' % op)
-    rep.check(ok_init, R, ix.site(f, inits[0]) if inits else ix.site(f), "the dependency collection starts as set(op['modes'])", "got `%s`" % (u(inits[0]) if inits else None), key="init")
-    # every other write to D is a set union with set(<x>.regrefs) under isinstance(<x>, RegRefTransform)
-    writes = []
-    for n in walk_shallow(lp):
-        if isinstance(n, ast.AugAssign) and isinstance(n.target, ast.Name) and n.target.id == D:
-            writes.append(n)
-        if isinstance(n, ast.Call) and isinstance(n.func, ast.Attribute) and u(n.func.value) == D and n.func.attr in ("update", "add", "extend", "append", "union"):
-            writes.append(n)
-    slots = {"args": False, "kwargs": False}
-    for w in writes:
-        if isinstance(w, ast.AugAssign):
-            okw = isinstance(w.op, ast.BitOr) and isinstance(w.value, ast.Call) and u(w.value.func) == "set" and u(w.value.args[0]).endswith(".regrefs")
-            src = u(w.value.args[0])[:-8] if okw else None
-        else:
-            okw = w.func.attr in ("update",) and w.args and u(w.args[0]).endswith(".regrefs")
-            src = u(w.args[0])[:-8] if okw else None
-        rep.check(okw, R, ix.site(f, w), "`%s` adds the registers of a transform to the set by union" % " ".join(u(w).split())[:60], key="write|" + " ".join(u(w).split())[:60])
-        if okw:
-            # which slot: the enclosing loop iterates args or kwargs; the guard tests isinstance(src, RegRefTransform)
-            for l in walk_shallow(lp):
-                if isinstance(l, ast.For) and any(x is w for x in ast.walk(l)):
-                    it = u(l.iter)
-                    guard = any(isinstance(g, ast.If) and u(g.test) == "isinstance(%s, RegRefTransform)" % src and any(x is w for x in ast.walk(g)) for g in ast.walk(l))
-                    tv = [x.id for x in ast.walk(l.target) if isinstance(x, ast.Name)]
-                    if guard and src in tv:
-                        if "kwargs" in it:
-                            slots["kwargs"] = True
-                        elif "args" in it:
-                            slots["args"] = True
-    rep.check(slots["args"], R, ix.site(f), "registers of transforms in positional arguments are added", key="slot args")
-    rep.check(slots["kwargs"], R, ix.site(f), "registers of transforms in keyword arguments are added", key="slot kwargs")
+    el = [n for n in walk_shallow(lp) if isinstance(n, ast.For) and any(isinstance(x, ast.Call) and isinstance(x.func, ast.Attribute) and x.func.attr == "add_edge" for x in ast.walk(n))]
+    if len(wl) == 1 and not el:
+        sh["wire_loop"], sh["idiom"] = wl[0], "grid"
+        loops = [("the wire loop", wl[0])]
+    elif el and not wl:
+        sh["idiom"] = "frontier"
+        loops = [("the edge loop", l) for l in el]
+        upd = [n for n in walk_shallow(lp) if isinstance(n, ast.For) and n not in el and any(
+            isinstance(x, ast.Assign) and isinstance(x.targets[0], ast.Subscript) and " ".join(u(x.value).split()) == idx for x in ast.walk(n))]
+        loops += [("the loop that records the latest operation of a wire", l) for l in upd]
+        sh["edge_loops"], sh["update_loops"] = el, upd
+        if not upd and not any(isinstance(x, ast.Assign) and isinstance(x.targets[0], ast.Subscript) and " ".join(u(x.value).split()) == idx for l in el for x in ast.walk(l)):
+            raise Inconclusive("to_DiGraph: single-pass construction without a recognisable latest-operation table")
+    else:
+        raise Inconclusive("to_DiGraph: neither the wire-list nor the single-pass construction is recognised")
+    for what, l in loops:
+        got = D.ev(l.iter)
+        rep.check(got == FULL, R, ix.site(f, l), "%s runs over the operation's modes and the registers of the transforms among its positional and keyword arguments" % what,
+                  "`for %s in %s` runs over %s; missing %s%s" % (u(l.target), " ".join(u(l.iter).split())[:80], show_deps(got), show_deps(FULL - got), "; unrecognised part" if "other" in got else ""),
+                  key="deps|" + what)
+        it = l.iter
+        while isinstance(it, ast.Call) and u(it.func) in ("sorted", "list", "tuple") and it.args:
+            it = it.args[0]
+        sh.setdefault("dep_exprs", []).append(it)
+    # each wire once: the collection is a set (so an operation is not placed twice on a wire)
+    for what, l in loops:
+        it = l.iter
+        is_set = False
+        if isinstance(it, ast.Name):
+            defs = [n for n in walk_shallow(lp) if isinstance(n, ast.Assign) and any(isinstance(t_, ast.Name) and t_.id == it.id for t_ in n.targets)]
+            is_set = bool(defs) and all(isinstance(n.value, (ast.SetComp, ast.Set)) or (isinstance(n.value, ast.Call) and u(n.value.func) in ("set", "frozenset")) or
+                                        (isinstance(n.value, ast.BinOp) and isinstance(n.value.op, ast.BitOr)) for n in defs)
+        elif isinstance(it, (ast.SetComp,)) or (isinstance(it, ast.BinOp) and isinstance(it.op, ast.BitOr)) or (isinstance(it, ast.Call) and u(it.func) in ("set", "frozenset")):
+            is_set = True
+        rep.check(is_set, R, ix.site(f, l), "%s iterates a set: each wire is visited once per operation" % what, "iterates `%s`" % " ".join(u(l.iter).split())[:60], key="set|" + what)
 
 
 def c16_2(rep, ix, f, sh):
     R = "C16.2"
+    if sh.get("idiom") == "frontier":
+        return c16_2_frontier(rep, ix, f, sh)
     if "wire_loop" not in sh:
         raise Inconclusive("to_DiGraph: wire loop not recognised")
     fn, lp, idx, wl = f.node, sh["loop"], sh["idx"], sh["wire_loop"]
@@ -147,6 +273,57 @@ def c16_2(rep, ix, f, sh):
         raise Inconclusive("to_DiGraph: add_edge arguments `%s` in loop `%s` outside the idiom set" % (u(e), u(l.iter)))
     rep.check(verdict, R, ix.site(f, e), "every edge joins the index components of two consecutive entries of one wire list, earlier -> later (hence forward, acyclic, per-wire program order)",
               "got `%s` in loop `for %s in %s`" % (u(e), u(l.target), u(l.iter)), key="edge")
+
+
+def c16_2_frontier(rep, ix, f, sh):
+    """single pass: a table holds the latest operation of every wire; an operation gets an edge from the latest operation of each of its
+    wires, then becomes the latest operation of those wires"""
+    R = "C16.2"
+    fn, lp, idx = f.node, sh["loop"], sh["idx"]
+    edges = [x for x in ast.walk(fn) if isinstance(x, ast.Call) and isinstance(x.func, ast.Attribute) and x.func.attr in ("add_edge", "add_edges_from", "add_weighted_edges_from")]
+    tables = set()
+    for e in edges:
+        l = [n for n in sh["edge_loops"] if any(x is e for x in ast.walk(n))]
+        if e.func.attr != "add_edge" or len(e.args) != 2 or len(l) != 1 or not isinstance(l[0].target, ast.Name):
+            raise Inconclusive("to_DiGraph: edge construction `%s` outside the idiom set" % " ".join(u(e).split())[:60])
+        q = l[0].target.id
+        a0, a1 = e.args
+        fwd = isinstance(a0, ast.Subscript) and u(a0.slice) == q and u(a1) == idx
+        rev = isinstance(a1, ast.Subscript) and u(a1.slice) == q and u(a0) == idx
+        if not (fwd or rev):
+            raise Inconclusive("to_DiGraph: add_edge arguments `%s` outside the idiom set" % u(e))
+        rep.check(fwd, R, ix.site(f, e), "every edge goes from the latest earlier operation on a wire to the current operation (forward, acyclic, per-wire program order)", "got `%s`" % u(e), key="edge")
+        tab = u((a0 if fwd else a1).value)
+        tables.add(tab)
+        # the lookup is guarded by membership
+        g = [n for n in ast.walk(l[0]) if isinstance(n, ast.If) and any(x is e for x in ast.walk(n))]
+        rep.check(any(" ".join(u(n.test).split()) == "%s in %s" % (q, tab) for n in g), R, ix.site(f, e), "the edge is drawn only when the wire already carries an operation", key="edge guard")
+    if len(tables) != 1:
+        raise Inconclusive("to_DiGraph: more than one latest-operation table")
+    tab = tables.pop()
+    sh["grid"] = tab
+    # writes to the table: tab[q] = idx, after the edges of this operation were drawn
+    last_edge = max(pos(e) for e in edges)
+    writes = [n for n in ast.walk(fn) if isinstance(n, ast.Assign) and any(isinstance(t, ast.Subscript) and u(t.value) == tab for t in n.targets)]
+    for w in writes:
+        ok = " ".join(u(w.value).split()) == idx
+        rep.check(ok, R, ix.site(f, w), "`%s` records the current operation as the latest on that wire" % " ".join(u(w).split())[:50], key="record|" + " ".join(u(w).split())[:50])
+        inner = [l for l in sh["edge_loops"] if any(x is w for x in ast.walk(l))]
+        after = pos(w) > last_edge or (inner and all(pos(w) > pos(e) for e in edges if any(x is e for x in ast.walk(inner[0]))))
+        rep.check(after, R, ix.site(f, w), "the latest operation of a wire is replaced only after this operation's edge from it was drawn", key="record order|" + " ".join(u(w).split())[:50])
+    rep.check(bool(writes), R, ix.site(f), "the latest-operation table is updated", key="record any")
+    other = [n for n in ast.walk(fn) if isinstance(n, ast.Call) and isinstance(n.func, ast.Attribute) and u(n.func.value) == tab and n.func.attr in ("pop", "clear", "update", "setdefault", "popitem")]
+    rep.check(not other, R, ix.site(f, other[0]) if other else ix.site(f), "the latest-operation table is changed only by those assignments", key="record only")
+    inits = [n for n in fn.body if isinstance(n, ast.Assign) and u(n.targets[0]) == tab]
+    rep.check(len(inits) == 1 and u(inits[0].value) in ("{}", "dict()") and pos(inits[0]) < pos(lp), R, ix.site(f), "the table starts empty before the operation loop", key="record init")
+    # nodes: every operation becomes a node in the loop
+    an = [x for x in walk_shallow(lp) if isinstance(x, ast.Call) and isinstance(x.func, ast.Attribute) and x.func.attr == "add_node"]
+    top = [s_ for s_ in lp.body if isinstance(s_, ast.Expr) and any(s_.value is x for x in an)]
+    rep.check(len(an) == 1 and len(top) == 1 and an[0].args and u(an[0].args[0]) == idx, R, ix.site(f, an[0]) if an else ix.site(f),
+              "every operation is added as node <idx> unconditionally", key="node per op")
+    cmds = [u(k.value)[:-len("._asdict()")] for x in an for k in x.keywords if k.arg is None and u(k.value).endswith("._asdict()")]
+    if cmds:
+        sh["cmd"] = cmds[0]
 
 
 def c16_ord(rep, ix, f):
